@@ -108,6 +108,24 @@ theorem dialect_page_sizes_positive :
     ∀ d ∈ Gen.ImvFlags.dialects, 0 < d.pageSize ∧ (d.maxParameters = 0 ∨ 100 ≤ d.maxParameters) := by
   decide
 
+/-! ## the sort flag over chained returning() calls -/
+
+theorem sortFlagAfter_eq_any (chain : List Bool) : sortFlagAfter chain = chain.any id := by
+  unfold sortFlagAfter
+  have : ∀ (acc : Bool), chain.foldl (fun acc f => acc || f) acc = (acc || chain.any id) := by
+    induction chain with
+    | nil => intro acc; simp
+    | cons b t ih => intro acc; simp [List.foldl_cons, ih, Bool.or_assoc]
+  simpa using this false
+
+/-- **sort_flag_monotone**: a later `returning()` / `return_defaults()` call that does not
+    repeat `sort_by_parameter_order=True` never resets the flag: it is the OR over the chain. -/
+theorem sort_flag_monotone (chain more : List Bool) (h : sortFlagAfter chain = true) :
+    sortFlagAfter (chain ++ more) = true := by
+  rw [sortFlagAfter_eq_any] at h ⊢
+  rw [List.any_append, h]
+  rfl
+
 /-! ## batches partition the parameter list -/
 
 /-- **batches_partition_params** (1): concatenating the batches gives back the
